@@ -138,7 +138,7 @@ class Fn:
         if k == "fn":
             return n["n"]
         if k == "var":
-            if alias and n["sc"] == "local":
+            if (alias or "$" in n["n"]) and n["sc"] == "local":  # variables introduced by sa/flatten.py are always seen through
                 a = self.aliases().get(n["n"])
                 if a is not None:
                     return self.show(a, alias, depth + 1)
@@ -212,9 +212,42 @@ class Fn:
                 i = self.d(init)
                 if i is not None and self._pure_path(i):
                     out[name] = i
+                elif i is not None and self._pure_expr(i, bad):
+                    out[name] = i  # a temporary holding a side-effect-free expression over never-reassigned variables (also: a parameter of an expanded helper, sa/flatten.py)
+            # the result variable of an expanded helper with a single return: stands for the returned expression
+            assigned = {}
+            for b in self.blocks.values():
+                for e in b.elems:
+                    if e["k"] == "bin" and e["op"] == "=":
+                        l = self.d(e["a"][0])
+                        if l and l["k"] == "var" and l["n"].endswith("$result"):
+                            assigned.setdefault(l["n"], []).append(e["a"][1])
+            for name, rhs in assigned.items():
+                if len(rhs) == 1 and decl.get(name, 0) is None:
+                    i = self.d(rhs[0])
+                    if i is not None and (self._pure_path(i) or self._pure_expr(i, bad)):
+                        out[name] = i
             self._aliases = {}
             self._aliases = out
         return self._aliases
+
+    def _pure_expr(self, n, modified, depth=0):
+        """side-effect-free arithmetic over variables that are never re-assigned"""
+        n = self.d(n)
+        if n is None or depth > 20:
+            return False
+        k = n["k"]
+        if k == "int":
+            return True
+        if k == "var":
+            return n["n"] not in modified
+        if k in ("member", "cast", "decay"):
+            return self._pure_expr(n["a"][0], modified, depth + 1)
+        if k == "un" and n["op"] in ("addr", "deref", "-", "~", "!", "+"):
+            return self._pure_expr(n["a"][0], modified, depth + 1)
+        if k == "bin" and n["op"] not in ASSIGN_OPS and n["op"] != ",":
+            return all(self._pure_expr(a, modified, depth + 1) for a in n["a"])
+        return False
 
     def _pure_path(self, n, depth=0):
         n = self.d(n)
@@ -463,7 +496,14 @@ class Unit:
         for g in self.globals.values():
             if g.get("init") is None and g.get("init_expr") is not None:
                 g["init"] = const_of(g["init_expr"], self.types)
-        self.functions = [Fn(f, self) for f in j["functions"]]
+        fl, helpers = j["functions"], set()
+        if not os.environ.get("VERIF_NO_FLATTEN"):
+            from . import flatten
+            fl, helpers = flatten.flatten_unit(j["functions"], self.types, j["globals"])
+        self.functions = [Fn(f, self) for f in fl]
+        self.transparent = helpers  # private helpers no rule knows by name: expanded in their callers (sa/flatten.py)
+        for f in self.functions:
+            f.transparent = f.name in helpers
 
 
 class Program:
@@ -473,6 +513,7 @@ class Program:
         self.units = []
         self.fns = {}  # name -> Fn (first definition wins; static duplicates are kept in by_key)
         self.by_key = {}
+        self.transparent = {}
         self.records = {}
         self.enums = {}
         self.globals = {}
@@ -487,7 +528,12 @@ class Program:
         self.units.append(u)
         for f in u.functions:
             key = (f.file, f.line, f.name)
-            if key in self.by_key:
+            if key in self.by_key or key in self.transparent:
+                continue
+            if getattr(f, "transparent", False):
+                # a private helper no rule knows by name: expanded in its callers (sa/flatten.py), not an analysis subject of its own
+                self.transparent[key] = f
+                self.fns.setdefault(f.name, f)
                 continue
             self.by_key[key] = f
             self.fns.setdefault(f.name, f)
@@ -511,5 +557,5 @@ class Program:
             return None
         return self.fns.get(name)
 
-    def functions_in(self, file_suffix):
-        return sorted([fn for (f, l, n), fn in self.by_key.items() if f.endswith(file_suffix)], key=lambda x: x.line)
+    def functions_in(self, file_suffix, include_transparent=False):
+        return sorted([fn for (f, l, n), fn in self.by_key.items() if f.endswith(file_suffix) and (include_transparent or not getattr(fn, "transparent", False))], key=lambda x: x.line)
